@@ -45,7 +45,7 @@ def plan(tier, seed):
 def required(tier):
     return {"alone_vs_joint_columns": 100, "subset_permutation_columns": 60, "assemble_haplotype_containment_checked": 30,
             "pool_read_matrix_checked": 30, "pool_vs_merged_records": 30, "bam_order_runs": 16, "sample_in_two_pools_runs": 8, "datasets_with_shared_bam": 4, "pool_files_with_interleaved_pools": 4, "datasets_with_per_sample_inbreeding": 4, "datasets_with_report_fields": 6,
-            "datasets_with_per_sample_temperatures": 4, "datasets_with_sampler_options": 6}
+            "datasets_with_per_sample_temperatures": 4, "datasets_with_sampler_options": 6, "datasets_with_input_filter_or_prior": 6}
 
 
 def argv(ds, prog, bams, hap=None, ploidy_file=None, extra=(), sel=None):
@@ -64,6 +64,8 @@ def argv(ds, prog, bams, hap=None, ploidy_file=None, extra=(), sel=None):
                 extra += ["--mcmc-temperatures", path]
         elif prog == "call":
             extra = list(extra) + list(getattr(ds, "call_extra", ()))
+        if prog in ("call", "call-exact"):
+            extra = list(extra) + list(getattr(ds, "hap_extra", ()))
     if prog == "assemble":
         a += ["--targets", ds.bed, "--variants", ds.vcf, "--reference", ds.fasta, "--report", "AFP"]
     else:
@@ -174,8 +176,23 @@ def run_shard(tier, seed, spec, col):
                     sq = datasets.hap_sequence(ds.contigs, L, hap, L["start"], L["stop"])
                     if sq != ref and sq not in alts:
                         alts.append(sq)
-            recs.append({"contig": L["contig"], "pos0": L["start"], "id": L["name"], "ref": ref, "alts": alts[:5]})
-        hv = hapvcf.write(os.path.join(root, "haps.vcf"), hapvcf.render(ds.contigs, recs))
+            r = {"contig": L["contig"], "pos0": L["start"], "id": L["name"], "ref": ref, "alts": alts[:5]}
+            # INFO that the optional input filter / prior can use (zeros included); some references masked on input
+            w = np.round(rng.dirichlet(np.ones(1 + len(r["alts"]))), 3)
+            if len(r["alts"]) >= 2 and rng.random() < 0.3:
+                w[int(rng.integers(1, len(w)))] = 0.0
+            if w.sum() <= 0:
+                w[0] = 1.0
+            r["info"] = {"AFP": ",".join(repr(float(x)) for x in w)}
+            if r["alts"] and rng.random() < 0.25:
+                r["info"]["REFMASKED"] = True
+            recs.append(r)
+        hv = hapvcf.write(os.path.join(root, "haps.vcf"), hapvcf.render(ds.contigs, recs, info_defs=[
+            {"ID": "AFP", "Number": "R", "Type": "Float"}, {"ID": "REFMASKED", "Number": "0", "Type": "Flag"}]))
+        ds.hap_extra = [[], [], ["--prior-frequencies", "AFP"], ["--filter-input-haplotypes", "AFP>=0.1"],
+                        ["--prior-frequencies", "AFP", "--filter-input-haplotypes", "AFP>0.05"]][int(rng.integers(5))]
+        if ds.hap_extra:
+            col.count("datasets_with_input_filter_or_prior")
         bam_of = {s: ds.sample_bam[s] for s in ds.samples}
         rep = {"dataset_seed": [seed, spec["shard"], dI]}
         for prog in ("call-exact", "call", "assemble"):
